@@ -1,6 +1,6 @@
 (* Properties/C11.v — Placeholder resolution: substitution, defaults, termination, true cycles only. *)
 From Coq Require Import List Arith Bool.
-From YT Require Import Model.Resolver Proofs.ResolverProofs Proofs.ResolverTermProofs Proofs.ResolverSeenProofs Proofs.ResolverNestedProofs.
+From YT Require Import Model.Resolver Proofs.ResolverProofs Proofs.ResolverTermProofs Proofs.ResolverSeenProofs Proofs.ResolverNestedProofs Proofs.ResolverBalancedProofs.
 Import ListNotations.
 
 (* Resolve(s) == s when s has no prefix; text outside placeholders is never altered. *)
@@ -68,8 +68,9 @@ Print Assumptions C11_self_reference_cycles.
    least as many as the text being scanned, so no body is met twice.
    PARTIAL: this theorem speaks of flat tables; tables whose values contain placeholders are covered by
    C11_terminates_unnested_partial (no nesting, plain defaults) and C11_terminates_nested_partial (nesting, no
-   defaults) below; nested placeholders WITH defaults over a recursive table are searched, not proved (Go-side
-   timeout per call) — see DESIGN.md C11. *)
+   defaults) and C11_terminates_balanced (everything at once, for texts in which every placeholder is closed) below;
+   what remains searched, not proved (Go-side timeout per call), is text with UNCLOSED prefixes over tables that are
+   not flat — see DESIGN.md C11. *)
 Theorem C11_terminates_partial : forall tbl, flat_tbl tbl -> forall s,
   exists r, resolve_top tbl (S (cpre s)) s = ROk r.
 Proof. exact flat_terminates_top. Qed.
@@ -117,8 +118,7 @@ Qed.
    values, recursively or cyclically — when the text holds no default separator: every body that can be met is a piece of
    the input or of a value (U lists them, nested ones included; resolved text is only used as a key, and a key without a
    separator is looked up as it is), so the same measure works: string or cycle report, never out of fuel; bound
-   |U| * (L+1) + |input| + 1.  What remains unproved is the combination of all three: nested placeholders AND defaults
-   (whose text is resolved again, so that bodies need not be pieces of the original texts) AND a recursive table. *)
+   |U| * (L+1) + |input| + 1. *)
 Theorem C11_terminates_nested_partial : forall tbl U L, nested_tbl tbl U L ->
   forall s, nscan U s -> nosep s = true -> length s <= L ->
   resolve_top tbl (S (length U * S L + length s)) s <> ROut.
@@ -146,6 +146,60 @@ Proof.
   - reflexivity.
   - vm_compute. reflexivity.
   - vm_compute. reflexivity.
+  - vm_compute. reflexivity.
+Qed.
+
+(* ... and finally all three at once — nested placeholders, defaults (whose text is resolved AGAIN) and recursive or cyclic
+   tables — for every table and every input in which each placeholder is closed ("balanced" texts: every prefix has its
+   suffix, no suffix stands alone; U lists the bodies of the input and of the values, nested ones included).  Resolution
+   ends with a string or a cycle report; there is always enough fuel.  The invariant [safe] describes resolved text and
+   its suffixes: the only prefixes in it belong to placeholders copied verbatim from the original texts (unknown key, no
+   default), so every body met — also while a default taken from resolved text is resolved again — is in U.
+   What is left outside every termination theorem: texts with an UNCLOSED prefix (in the input, or a value such as "${"
+   that can pair up with a "}" from elsewhere after substitution) over tables that are not flat. *)
+Theorem C11_terminates_balanced : forall tbl U, safe_tbl tbl U ->
+  forall s, safe U s -> exists f, resolve_top tbl f s <> ROut.
+Proof. exact balanced_terminates_top. Qed.
+Print Assumptions C11_terminates_balanced.
+
+(* resolved text keeps the shape (so does the default cut out of it) *)
+Theorem C11_resolved_text_is_safe : forall tbl U, safe_tbl tbl U ->
+  forall f seen s r, resolve tbl f seen s = ROk r -> safe U s -> safe U r.
+Proof. exact resolve_safe. Qed.
+Print Assumptions C11_resolved_text_is_safe.
+
+(* non-vacuity: a cycle that runs through a DEFAULT and a nested placeholder (a -> ${u:${a}}), and a default that is a
+   placeholder resolved again (${u:${v}} with v -> x) *)
+Example C11_balanced_ex :
+  let a := [TChr 1] in let B := [TChr 5; TSep; TPre; TChr 1; TSuf] in
+  let va := TPre :: B ++ [TSuf] in
+  let tbl := tbl_of [(a, va); ([TChr 2], [TChr 9])] in
+  let U := [a; B; [TChr 2]; [TChr 5; TSep; TPre; TChr 2; TSuf]] in
+  safe_tbl tbl U /\ safe U [TPre; TChr 1; TSuf] /\
+  resolve_top tbl 10 [TPre; TChr 1; TSuf] = RCycle a /\
+  safe U [TPre; TChr 5; TSep; TPre; TChr 2; TSuf; TSuf] /\
+  resolve_top tbl 10 [TPre; TChr 5; TSep; TPre; TChr 2; TSuf; TSuf] = ROk [TChr 9].
+Proof.
+  cbv zeta.
+  assert (Ba : bal [[TChr 1]; [TChr 5; TSep; TPre; TChr 1; TSuf]; [TChr 2]; [TChr 5; TSep; TPre; TChr 2; TSuf]] [TChr 1])
+    by (apply bal_tok; [discriminate|discriminate|apply bal_nil]).
+  assert (B2 : bal [[TChr 1]; [TChr 5; TSep; TPre; TChr 1; TSuf]; [TChr 2]; [TChr 5; TSep; TPre; TChr 2; TSuf]] [TChr 2])
+    by (apply bal_tok; [discriminate|discriminate|apply bal_nil]).
+  assert (BB : bal [[TChr 1]; [TChr 5; TSep; TPre; TChr 1; TSuf]; [TChr 2]; [TChr 5; TSep; TPre; TChr 2; TSuf]]
+                   [TChr 5; TSep; TPre; TChr 1; TSuf]).
+  { apply bal_tok; [discriminate|discriminate|]. apply bal_tok; [discriminate|discriminate|].
+    apply (bal_ph _ [TChr 1] []); [now left|exact Ba|apply bal_nil]. }
+  assert (BB2 : bal [[TChr 1]; [TChr 5; TSep; TPre; TChr 1; TSuf]; [TChr 2]; [TChr 5; TSep; TPre; TChr 2; TSuf]]
+                    [TChr 5; TSep; TPre; TChr 2; TSuf]).
+  { apply bal_tok; [discriminate|discriminate|]. apply bal_tok; [discriminate|discriminate|].
+    apply (bal_ph _ [TChr 2] []); [right; right; now left|exact B2|apply bal_nil]. }
+  split; [|split; [|split; [|split]]].
+  - intros k v H. simpl in H.
+    destruct (toks_eqb k [TChr 1]); [injection H as <-; apply (safe_ph _ [TChr 5; TSep; TPre; TChr 1; TSuf] []); [right; now left|exact BB|apply safe_nil]|].
+    destruct (toks_eqb k [TChr 2]); [injection H as <-; apply safe_tok; [discriminate|apply safe_nil]|discriminate].
+  - apply (safe_ph _ [TChr 1] []); [now left|exact Ba|apply safe_nil].
+  - vm_compute. reflexivity.
+  - apply (safe_ph _ [TChr 5; TSep; TPre; TChr 2; TSuf] []); [right; right; right; now left|exact BB2|apply safe_nil].
   - vm_compute. reflexivity.
 Qed.
 
